@@ -362,10 +362,11 @@ Proof.
     apply in_flat_map in Ho1 as [e [_ Ho1]]. apply in_flat_map in Ho1 as [x [_ Ho1]].
     unfold send_to in Ho1. destruct (can_send _ x); [|destruct Ho1]. destruct Ho1 as [<-|[]].
     destruct Hm as [<-|[]]. eauto.
-  - match goal with |- reqids_of ?l = [] => assert (H : forall o1, In o1 l -> exists x s', o1 = OSend x (MRemoved o s')) end.
-    { intros o1 Ho1. apply in_flat_map in Ho1 as [e [_ Ho1]]. apply in_flat_map in Ho1 as [x [_ Ho1]].
+  - match goal with |- reqids_of ?l = [] => remember l as L eqn:EL end.
+    assert (H : forall o1, In o1 L -> exists x s', o1 = OSend x (MRemoved o s')).
+    { subst L. intros o1 Ho1. apply in_flat_map in Ho1 as [e [_ Ho1]]. apply in_flat_map in Ho1 as [x [_ Ho1]].
       unfold send_to in Ho1. destruct (can_send _ x); [|destruct Ho1]. destruct Ho1 as [<-|[]]. eauto. }
-    match goal with |- reqids_of ?l = [] => induction l as [|o1 l IH]; [reflexivity|] end.
+    clear EL. induction L as [|o1 L IH]; [reflexivity|].
     simpl. destruct (H o1 (or_introl eq_refl)) as (x & s' & ->). simpl. apply IH. intros o2 Ho2. apply H. right. exact Ho2.
   - intros c p s Hm Ho Hc Hp Hne. unfold Lk. simpl.
     rewrite (alookup_filter_key str_eqb str_eqb_spec (fun k => negb (startswith (n_name n ++ DOT :: o ++ [DOT]) k))).
@@ -384,4 +385,98 @@ Proof.
     + apply filter_In. split; [exact El|]. simpl. apply prefix_obj2; auto.
     + simpl. apply in_flat_map. exists x. split; [exact HR|].
       unfold send_to. unfold can_send in *. simpl. rewrite Hc. rewrite after_dot_key2 by exact Ho. left. reflexivity.
+Qed.
+
+(* ---- closing the connection ---- *)
+Lemma handle_reply_unknown n id ok : nlk id (n_pid n) = None -> handle_reply n id ok = (n, []).
+Proof. intro H. unfold handle_reply, complete. rewrite H. reflexivity. Qed.
+
+Lemma pname_empty_of_pid n : TInv n -> (forall id, nlk id (n_pid n) = None) -> forall key, slk key (n_pname n) = None.
+Proof.
+  intros (_ & (_ & P2 & _) & _) H key. destruct (slk key (n_pname n)) eqn:E; [|reflexivity].
+  destruct (P2 _ _ E) as [id Hid]. rewrite H in Hid. discriminate.
+Qed.
+
+Lemma err_replies_down ids : forall n,
+  TInv n -> (forall c, can_send n c = false) ->
+  let r := err_replies n ids in
+  snd r = [] /\ same_side n (fst r) /\ TInv (fst r) /\
+  (forall key, slk key (n_lsubs (fst r)) = slk key (n_lsubs n)) /\
+  (forall id, In id ids -> nlk id (n_pid (fst r)) = None) /\
+  (forall id, nlk id (n_pid n) = None -> nlk id (n_pid (fst r)) = None).
+Proof.
+  induction ids as [|id ids IH]; intros n HT Hc; simpl.
+  - split; [reflexivity|]. split; [unfold same_side; auto|]. split; [exact HT|]. split; [reflexivity|]. split; [tauto | auto].
+  - assert (Hstep : let r1 := handle_reply n id false in
+            snd r1 = [] /\ same_side n (fst r1) /\ TInv (fst r1) /\
+            (forall key, slk key (n_lsubs (fst r1)) = slk key (n_lsubs n)) /\
+            nlk id (n_pid (fst r1)) = None /\
+            (forall id', nlk id' (n_pid n) = None -> nlk id' (n_pid (fst r1)) = None)).
+    { destruct (nlk id (n_pid n)) as [key|] eqn:Eid.
+      2: { rewrite handle_reply_unknown by exact Eid. simpl. split; [reflexivity|]. split; [unfold same_side; auto|].
+           split; [exact HT|]. split; [reflexivity|]. split; [exact Eid | auto]. }
+      pose proof HT as (H0 & HPC & HPV & HNE & HNR & HEX).
+      destruct HPC as (P1 & P2 & P3 & P4). destruct (P1 _ _ Eid) as [q Eq].
+      assert (Hl : slk key (n_lsubs n) = None).
+      { destruct (slk key (n_lsubs n)) eqn:El; [|reflexivity]. rewrite (HEX _ _ El) in Eq. discriminate. }
+      assert (Hnf : nlk (n_next n) (n_pid n) = None).
+      { destruct (nlk (n_next n) (n_pid n)) eqn:E; [|reflexivity]. specialize (P4 _ _ E). lia. }
+      pose proof (handle_reply_spec n id false key q HT Eid Eq) as Hs. cbv zeta in Hs.
+      pose proof (handle_reply_TInv n id false HT) as HT1.
+      destruct (handle_reply n id false) as [n1 o1]. simpl in *. destruct Hs as (S1 & S2 & S3 & S4).
+      assert (Hlall : forall (lk' : unit), slk key (n_lsubs n1) = None -> forall key', slk key' (n_lsubs n1) = slk key' (n_lsubs n)).
+      { intros _ Hk key'. destruct (str_eq_dec key' key) as [->|Hne]; [congruence | apply S2; exact Hne]. }
+      rewrite (Hc (pq_ctx q)) in S4.
+      destruct (pq_sub q).
+      - destruct S4 as (-> & S5 & S6 & S7). split; [reflexivity|]. split; [exact S1|]. split; [exact HT1|].
+        split; [apply (Hlall tt); exact S7|]. split; [exact S3|].
+        intros id' Hn. destruct (N.eq_dec id' id) as [->|Hne]; [exact S3 | rewrite S6 by exact Hne; exact Hn].
+      - destruct (is_nil (pq_recv q)).
+        + destruct S4 as (-> & S5 & S6 & S7). split; [reflexivity|]. split; [exact S1|]. split; [exact HT1|].
+          split; [apply (Hlall tt); exact S7|]. split; [exact S3|].
+          intros id' Hn. destruct (N.eq_dec id' id) as [->|Hne]; [exact S3 | rewrite S6 by exact Hne; exact Hn].
+        + destruct S4 as (-> & S5 & S6 & S7 & S8). split; [reflexivity|]. split; [exact S1|]. split; [exact HT1|].
+          split; [apply (Hlall tt); exact S8|]. split; [exact S3|].
+          intros id' Hn. destruct (N.eq_dec id' id) as [->|Hne]; [exact S3|].
+          destruct (N.eq_dec id' (n_next n)) as [->|Hne2]; [exact S6 | rewrite S7 by assumption; exact Hn]. }
+    cbv zeta in Hstep. destruct (handle_reply n id false) as [n1 o1]. simpl in Hstep.
+    destruct Hstep as (-> & S1 & HT1 & S3 & S4 & S5).
+    assert (Hc1 : forall c, can_send n1 c = false) by (intro c; rewrite (can_send_same n n1 c S1); apply Hc).
+    specialize (IH n1 HT1 Hc1). cbv zeta in IH. destruct (err_replies n1 ids) as [n2 o2]. simpl in *.
+    destruct IH as (-> & I1 & I2 & I3 & I4 & I5).
+    split; [reflexivity|]. split; [eapply same_side_trans; eauto|]. split; [exact I2|].
+    split; [intro key; rewrite I3; apply S3|]. split.
+    + intros id' [<-|Hin]; [apply I5; exact S4 | apply I4; exact Hin].
+    + intros id' Hn. apply I5, S5, Hn.
+Qed.
+
+Lemma peer_removed_spec n x :
+  (forall c, can_send n c = true -> c = x) ->
+  let n1 := peer_removed (w_peers (sdel str_eqb x (n_peers n)) n) x in
+  (forall c, can_send n1 c = false) /\
+  n_pname n1 = n_pname n /\ n_pid n1 = n_pid n /\ n_name n1 = n_name n /\ n_objs n1 = n_objs n /\ n_next n1 = n_next n /\
+  (forall p s, Lk n1 x p s = None) /\
+  (forall c p s, nodot c = true -> nodot x = true -> c <> x -> Lk n1 c p s = Lk n c p s) /\
+  (forall p s, Rk n1 x p s = false).
+Proof.
+  intro Hp. unfold peer_removed. simpl. split; [|do 5 (split; [reflexivity|]); split; [|split]].
+  - intro c. unfold can_send. simpl. apply (smem_false str_eqb str_eqb_spec). intro Hin.
+    apply (In_sdel str_eqb str_eqb_spec) in Hin as [Hne Hin]. apply Hne. apply Hp. apply smem_S_In. exact Hin.
+  - intros p s. unfold Lk. simpl.
+    rewrite (alookup_filter_key str_eqb str_eqb_spec (fun k => negb (startswith (x ++ [DOT]) k))).
+    replace (startswith (x ++ [DOT]) (key3 x p s)) with true; [reflexivity|].
+    symmetry. unfold key3. replace (x ++ DOT :: p ++ DOT :: s) with ((x ++ [DOT]) ++ p ++ DOT :: s) by (rewrite <- app_assoc; reflexivity).
+    apply startswith_app.
+  - intros c p s Hc Hx Hne. unfold Lk. simpl.
+    rewrite (alookup_filter_key str_eqb str_eqb_spec (fun k => negb (startswith (x ++ [DOT]) k))).
+    destruct (startswith (x ++ [DOT]) (key3 c p s)) eqn:E; [|reflexivity].
+    apply prefix_ctx in E; try assumption. congruence.
+  - intros p s. unfold Rk. simpl.
+    match goal with |- smem str_eqb x (opt_list (slk ?k ?t)) = false => destruct (slk k t) as [l|] eqn:El end; [|reflexivity].
+    simpl. apply (smem_false str_eqb str_eqb_spec). intro Hin.
+    apply (alookup_In str_eqb str_eqb_spec) in El. apply in_flat_map in El as [[k0 l0] [_ El]]. simpl in El.
+    destruct (smem str_eqb x l0) eqn:Em.
+    + destruct (is_nil (sdel str_eqb x l0)); [destruct El|]. destruct El as [El|[]]. inversion El; subst.
+      apply (In_sdel str_eqb str_eqb_spec) in Hin as [Hin _]. congruence.
+    + destruct El as [El|[]]. inversion El; subst. apply smem_S_In in Hin. congruence.
 Qed.
